@@ -88,11 +88,14 @@ def run(ctx):
                     what_rel = "%s:%s" % (shape["fam"], shape["rel"])
                 if out == "panic":
                     key = "panic|%s" % (where or "?")
+                elif out in ("timeout", "stack-overflow"):
+                    # an unbounded traversal shows as stack exhaustion or as a time-out depending on how much work a level does
+                    key = "unbounded|%s" % what_rel
                 else:
                     key = "%s|%s" % (out, what_rel)
                 x = reported.setdefault(key, {"n": 0, "ops": collections.Counter(), "rec": r, "i": i - 1, "shapes": 0, "seen": set()})
                 x["n"] += 1
-                x["ops"][op] += 1
+                x["ops"]["%s:%s" % (op, out)] += 1
                 if r["idx"] not in x["seen"]:
                     x["seen"].add(r["idx"])
                     # prefer the smallest input as the example
@@ -121,7 +124,7 @@ def run(ctx):
                outcomes=dict(outs), died=summ["dead"], timeouts_not_confirmed=summ["timeouts_not_confirmed"],
                max_op_ms=max(r["maxms"] for r in rows), exhaustive=False)
         ev.assume("stack limit %s MB (debug.SetMaxStack) with chains of %s levels: an unguarded recursion needs about 640 bytes of stack per level to be seen" % (stack, "10^4" if ctx.quick else "10^5"),
-                  "time bound per operation: 1.5 s + 20 us per input byte of process CPU time (confirmed once with 4x the budget), wall clock backstop 60 s + 0.4 ms per byte",
+                  "time bound per operation: 1.5 s + 20 us per input byte of process CPU time (confirmed once with 4x the budget), wall clock backstop 300 s + 0.4 ms per byte",
                   "after two confirmed timeouts on one input the remaining operations on it are not run and not judged",
                   "not a byte-level fuzzer: the space is the structural shapes of Robust.tla",
                   "harness built with go1.26.8")
